@@ -56,15 +56,16 @@ def audit(prop):
     rc, out = sh(["lake", "env", "lean", path], cwd=LEAN)
     thms, cur = [], None
     text = out.replace("\n  ", " ")
+    import re as _re
     for line in text.splitlines():
         line = line.strip()
-        if "does not depend on any axioms" in line:
-            name = line.split("'")[1]
-            thms.append((name, []))
-        elif "depends on axioms:" in line:
-            name = line.split("'")[1]
-            axs = line.split("[", 1)[1].rsplit("]", 1)[0]
-            thms.append((name, [a.strip() for a in axs.split(",") if a.strip()]))
+        m = _re.match(r"^'(.+)' does not depend on any axioms", line)
+        if m:
+            thms.append((m.group(1), []))
+            continue
+        m = _re.match(r"^'(.+)' depends on axioms: \[(.*)\]", line)
+        if m:
+            thms.append((m.group(1), [a.strip() for a in m.group(2).split(",") if a.strip()]))
     ok = rc == 0 and len(thms) > 0 and all(set(a) <= ALLOWED_AXIOMS for _, a in thms)
     return ok, thms, out
 
